@@ -22,7 +22,9 @@ struct AnchorStore {
 
 #[derive(Default)]
 struct AnchorState {
-    stack: Vec<(AnchorKind, usize)>,
+    /// One entry per wrapper node being read; `None` for a node that carries no anchor, so that
+    /// such a node is not mistaken for the anchored node around it.
+    stack: Vec<(AnchorKind, Option<usize>)>,
     store: AnchorStore,
     in_progress: HashMap<(AnchorKind, usize), usize>,
 }
@@ -36,24 +38,22 @@ pub(crate) fn with_anchor_context<R>(
     anchor: Option<usize>,
     f: impl FnOnce() -> R,
 ) -> R {
-    if let Some(id) = anchor {
-        STATE.with(|state| {
-            let mut s = state.borrow_mut();
-            s.stack.push((kind, id));
+    STATE.with(|state| {
+        let mut s = state.borrow_mut();
+        s.stack.push((kind, anchor));
+        if let Some(id) = anchor {
             *s.in_progress.entry((kind, id)).or_insert(0) += 1;
-        });
-        let guard = Guard { kind, id };
-        let result = f();
-        drop(guard);
-        result
-    } else {
-        f()
-    }
+        }
+    });
+    let guard = Guard { kind, id: anchor };
+    let result = f();
+    drop(guard);
+    result
 }
 
 struct Guard {
     kind: AnchorKind,
-    id: usize,
+    id: Option<usize>,
 }
 
 impl Drop for Guard {
@@ -61,11 +61,12 @@ impl Drop for Guard {
         STATE.with(|state| {
             let mut s = state.borrow_mut();
             s.stack.pop();
-            if let Some(count) = s.in_progress.get_mut(&(self.kind, self.id)) {
+            let Some(id) = self.id else { return };
+            if let Some(count) = s.in_progress.get_mut(&(self.kind, id)) {
                 if *count > 1 {
                     *count -= 1;
                 } else {
-                    s.in_progress.remove(&(self.kind, self.id));
+                    s.in_progress.remove(&(self.kind, id));
                 }
             }
         });
@@ -79,7 +80,8 @@ fn current_anchor_id(kind: AnchorKind) -> Option<usize> {
             .stack
             .iter()
             .rev()
-            .find_map(|(k, id)| if *k == kind { Some(*id) } else { None })
+            .find(|(k, _)| *k == kind)
+            .and_then(|(_, id)| *id)
     })
 }
 
